@@ -204,7 +204,8 @@ func (m *c11) verify(r *rq) {
 				var oStart, oEnd int
 				var oDone bool
 				m.WithLock(func() { oStart, oEnd, oDone = o.call.StartSeq, o.call.EndSeq, o.call.Done })
-				if oStart < start && (!oDone || oEnd > start) {
+				// (lifetimes overlap; the later call may well be the first to get to the slot)
+				if oStart < end && (!oDone || oEnd > start) {
 					other = true
 				}
 			}
